@@ -15,6 +15,7 @@ claimed = {
  'C05': ("The documented error table (init obligations), ComputePath for every attach-option combination, and Verify proved equal to the precedence table for every combination of query, headers, registry and hook outcome.", "5 (C05)"),
  'C06': ("Handshake success path: exactly one NewSocket with protocol 4 iff EIO==4 (3 only when allowed), stored before the close hook is registered, exactly one 'connection' event and no 'connection_error'. The open packet contents (onOpen) are not yet under contract.", "5 (C06)"),
  'C07': ("Heartbeat decision logic: timeout duration per revision, v3 ping -> refresh+pong+heartbeat, v4 pong -> clear deadline then re-arm interval, wrong direction -> exactly one transport error and nothing else; timers cleared on close. The timer API itself is trusted (C19 not applicable), so deadlines are proved relative to a correct timer.", "5 (C07)"),
+ 'C08': ("Upgrade gating and the upgrade closures: an upgraded WebSocket is admitted as candidate only for a known session that is neither upgrading nor upgraded (every other case closes the candidate and calls nothing on the session); MaybeUpgrade arms flag, timeout and the four listeners and touches nothing else; probe ping -> probe pong on the candidate; upgrade packet on a non-closed session -> cleanup, discard old, clearTransport, setTransport(candidate), upgrade event, flush, in that order; every other packet, candidate error/close, session close and the timeout clean up (flag cleared, timers cleared, listeners removed) and close only the candidate. Multi-party timing (lost probe, candidate closing before listeners attach) is not decided.", "5 (C08)"),
  'C10': ("The limit reaches every inbound path: WebTransport advanceFrame enforces readLimit for every frame header (bit-vector proof) and the limit is installed before the first read; the WebSocket upgrade installs SetReadLimit(maxHttpBufferSize) before onWebSocket; polling onDataRequest answers 413 for a declared length above the limit, bounds bodies of undeclared length with MaxBytesReader and hands OnData nothing larger; Handshake copies the limit to the transport. gorilla's enforcement and net/http's body accounting are trusted.", "5 (C10)"),
  'C11': ("Polling discipline per call: overlapping poll/data requests are answered 400 with one write and a transport error, leaving the pending request in place; every return path of onDataRequest has written exactly one response and 'ok' only after OnData returned; HttpContext.Write never writes twice. Overlap between handler goroutines (check-then-act on p.req) is not decided.", "5 (C11)"),
  'C12': ("Close decision table (discard / not open / buffered -> wait for drain / empty -> close now), closeTransport order (discard before close) and the forced-close reason of its callback.", "5 (C12)"),
